@@ -3,15 +3,15 @@ CONSTANTS
   Family = "M"
   Depth = 3
   MaxHeap = 5
-  MaxR = 4
+  MaxR = 9
   Ds = {2}
   InitKinds = {"Measure", "DiagMeasure", "PDF:S"}
   FactorKinds = {"Factor", "Rank1", "Linear", "Const"}
   CondKinds = {}
-  RInit = {2}
-  SampleMod = 1
+  RInit = {3}
+  SampleMod = 2
   SampleRes = 0
-  Rich = FALSE
+  Rich = TRUE
 INIT Init
 NEXT Next
 CHECK_DEADLOCK FALSE
